@@ -205,8 +205,15 @@ def generated(gravity: float, temperature: float, pmax: float) -> dict[str, np.n
 
 def synthetic(rng: np.random.Generator) -> dict[str, np.ndarray]:
     n = int(rng.choice([3, 4, 7, 30, 200]))
-    style = int(rng.integers(0, 3))
-    if style == 0:
+    style = int(rng.integers(0, 4))
+    if style == 3:
+        # a grid refined locally (rows 0.01 psi apart) around the pressure that sits at the middle row - the initial pressure of
+        # one of the wrappers built on it: neighbouring rows are then within 1e-5 of each other in scaled pseudopressure
+        k = max(1, (n - 9) // 2) if n >= 11 else 2
+        c = float(rng.uniform(2000.0, 6000.0))
+        p = np.concatenate([np.sort(rng.uniform(50.0, c - 50.0, k)), c + 0.01 * np.arange(-4, 5), np.sort(rng.uniform(c + 50.0, 1.2e4, k))])
+        n = len(p)
+    elif style == 0:
         p = np.cumsum(rng.uniform(0.5, 50.0, n)) + rng.uniform(0.01, 100.0)
     elif style == 1:
         p = np.geomspace(rng.uniform(1e-3, 10.0), rng.uniform(1e3, 2e4), n)
